@@ -108,6 +108,9 @@ def _fill_chart_slide(prs, kind, BubbleChartData, CategoryChartData, XL_CHART_TY
         gf2 = s.shapes.add_chart(ct, Inches(1), Inches(5), Inches(6), Inches(2), cd)      # [1]: a chart with titles present
         gf2.chart.has_title = True
         gf2.chart.value_axis.has_title = True
+        # [2]: a STACKED column chart (another grouping of the same plot class: the writer gives it an explicit overlap of 100)
+        from pptx.enum.chart import XL_CHART_TYPE as _X
+        s.shapes.add_chart(_X.COLUMN_STACKED, Inches(7), Inches(5), Inches(2), Inches(2), cd)
 
 
 def deck_bytes(name: str) -> bytes:
